@@ -65,6 +65,12 @@ pub fn templates() -> Vec<&'static str> {
         // run-time-only macros and functions nested in collections inside a foldable call
         "[1].map(z, [has($0)])", "zip([coalesce($0, 7)], [1])", "[1].map(z, [[has($0.a)]])", "[1].map(z, {'k': [coalesce($0, 1)]})",
         "[1].map(z, [has({'a': $0}.a), z])", "[[1].map(z, [coalesce(null, $0)])]",
+        // functions and methods that exist only at run time (uf, um are bound by the caller), inside
+        // constructs that absorb failures, inside a foldable call
+        "[$1].map(z, match has($0) { case bool: 1, case _: 2 })", "[$1].map(z, match uf($0) { case int: 1, case _: 2 })",
+        "[$1].map(z, uf($0) || true)", "[$1].map(z, $0.um() || true)", "[$0].map(z, match z.um() { case int: 1, case _: 2 })",
+        "string(match uf($0) { case int: 'i', case _: 'o' })", "size([uf($0) || true, $1])", "[$0].filter(z, {'a': 1}.um() || true)",
+        "[$0].map(z, match {'a': z}.nokey { case int: 1, case _: 2 })", "[$0].all(z, coalesce(z, 1) == 1 || true)",
         // ... with a hole in the receiver, so that one rendering cannot be folded at all
         "[$1].map(z, [has($0)])", "zip([coalesce($0, 7)], [$1])", "[$1].map(z, {'k': [coalesce($0, 1)]})", "[$1].map(z, [[has({'a': $0}.b)]])",
         "[$0].map(z, [has(z)])", "[$0].map(z, [[coalesce(z, 1)]])", "[$0].filter(z, [has(z)][0])",
@@ -75,6 +81,14 @@ pub fn templates() -> Vec<&'static str> {
 
     ];
     t.dedup();
+    t
+}
+
+/// functions the caller binds at run time only: uf(x) = x, v.um() = v
+fn uf_impl(_t: CelValue, a: Vec<CelValue>) -> CelValue {
+    a.into_iter().next().unwrap_or(CelValue::Null)
+}
+fn um_impl(t: CelValue, _a: Vec<CelValue>) -> CelValue {
     t
 }
 
@@ -213,7 +227,12 @@ impl Space {
             if !ok {
                 continue;
             }
-            let got = real::eval(&src, &binds);
+            let got = {
+                let mut bc = real::bindings(&binds);
+                bc.bind_func("uf", &uf_impl);
+                bc.bind_func("um", &um_impl);
+                real::eval_with(&src, &bc)
+            };
             acc.eval();
             acc.class(&got.class());
             match &reference {
